@@ -20,9 +20,9 @@ from gen_bins import compositions, blocks_from_widths, names_for, table_from_blo
 import gen_c08 as G
 
 PROP = "C08"
-RULE = ("coarsen_bins: every valid bin table with 1 chromosome of length <=7 and 2 chromosomes of length <=4 (all compositions) x k in {2,3,4,5,n+1}; "
+RULE = ("coarsen_bins: every valid bin table with 1 chromosome of length <=7 and 2 chromosomes of length <=3 (all compositions; length 4: 45 sampled, all in the thorough tier) x k in {2,3,4,5,n+1}; "
         "_greedy_prune_partition: every non-decreasing edge list from 0 of length 2..5 with values <=5 x maxlen 1..6; "
-        "coarsen_cooler: corpus (D1 longer-last-bin tables, chromosomes shorter than k, empty cooler, empty rows at chunk edges, variable tables whose coarsening looks fixed, bin size 1, one-bin chromosomes) x k in {2,3,5,n+1} x chunksize in {1,2,7,nnz+1}, "
+        "coarsen_cooler: corpus (D1 longer-last-bin tables, chromosomes shorter than k, empty cooler, empty rows at chunk edges, variable tables whose coarsening looks fixed, bin size 1, one-bin chromosomes) x k in {2,3,5,n+1} x chunksize in {1,2,7,nnz+1} (all 16 combinations for the first 7 corpus coolers, 2 chunk sizes per k for the others), "
         "seeded random coolers (fixed / variable / longer-last / variable-that-coarsens-to-fixed tables, 1-4 chromosomes, symmetric and square storage, 9 pixel patterns) x all four k x two chunk sizes, "
         "fixed-width tables of EVERY width 1..60 (thorough 1..200) x k in {2,3,5,7} at function level (chunk stream of CoolerCoarsener vs exact integer division) and end to end for widths 7,49,98,103,107,161,187,196 + random widths <= 2000 with >= 3 coarse bins per chromosome; nproc=2 and the CLI on a few, chains k1;k2 vs k1*k2 (fixed and variable tables), merge/coarsen interleavings, a second value column with agg max/min/sum incl. the D20 corpus (columns=[count,w], columns=[w]); "
         "non-trivial = nnz>0 and at least 2 old bins; distinct by input hash")
@@ -121,12 +121,15 @@ def part_bins(ctx):
     for L in range(1, (9 if thorough else 8)):
         for comp in comps[L]:
             tables.append([comp])
-    m2 = 5 if thorough else 4
+    m2 = 5 if thorough else 3
     for L1 in range(1, m2 + 1):
         for L2 in range(1, m2 + 1):
             for c1 in comps[L1]:
                 for c2 in comps[L2]:
                     tables.append([c1, c2])
+    if not thorough:   # two chromosomes with one of length 4: a seeded sample (exhaustive in the thorough tier)
+        more = [[c1, c2] for L1 in range(1, 5) for L2 in range(1, 5) if max(L1, L2) == 4 for c1 in comps[L1] for c2 in comps[L2]]
+        tables += ctx.rng.sample(more, 45)
     tables += [[[10, 10, 15]], [[7, 23]], [[10, 10], [35]], [[5, 5, 5], [5, 9]], [[3, 7, 3, 7]], [[3, 7, 3, 7, 4]], [[1], [1], [1]]]
     cases = []
     for widths in tables:
@@ -332,8 +335,8 @@ def part_api(ctx):
     inputs = []   # (widths, symmetric, pixels, note, full?)
     for widths, symm, pix, note in CORPUS:
         blocks, pixels = build_case(rng, widths, symm, pix)
-        inputs.append((widths, symm, pixels, note, True))
-    for i in range(60 if thorough else 22):
+        inputs.append((widths, symm, pixels, note, thorough or len(inputs) < 7))
+    for i in range(60 if thorough else 16):
         widths, kind = G.random_widths(rng)
         symm = rng.random() < 0.6
         n = sum(len(w) for w in widths)
@@ -467,7 +470,10 @@ def part_widths(ctx):
         ntot = sum(nb)
         symm = rng.random() < 0.7
         pixels = [list(p) for p in G.random_pixels(rng, ntot, symm, rng.choice(["sparse", "band", "diag"]))]
-        for k in ks:
+        # factors whose new bin size w*k has a reciprocal that rounds down in binary floating point come first
+        bad_ks = [k for k in ks if any(int(np.floor(n_ * (w * k) * (1.0 / (w * k)))) < n_ for n_ in range(1, 40))]
+        use = ks if thorough else (bad_ks[:2] or [rng.choice(ks)])
+        for k in use:
             runs.append({"fn": "coarsen_cooler", "widths": widths, "symmetric": symm, "pixels": pixels, "k": k,
                          "chunksize": rng.choice([1, 7, len(pixels) + 1]), "nproc": 1, "note": f"width:{w}"})
     model = C.coq_eval(HDR, [model_expr(c, 1) for c in runs], tmpdir=ctx.tmp / "widthsv2")
@@ -756,15 +762,16 @@ def agg_run(tmpdir, tag, case, got_out=None):
 
 # ----------------------------------------------------------------------- run
 def run(ctx):
+    import time
     source_pattern(ctx)
-    scopes = {}
-    scopes["coarsen_bins_cases"] = part_bins(ctx)
-    scopes["prune_cases"] = part_prune(ctx)
-    scopes["api_runs"] = part_api(ctx)
-    scopes["width_sweep_runs"] = part_widths(ctx)
-    scopes["chains"] = part_chain(ctx)
-    scopes["merge_interleavings"] = part_merge(ctx)
-    scopes["agg_runs"] = part_agg(ctx)
+    scopes, times = {}, {}
+    for name, fn in (("coarsen_bins_cases", part_bins), ("prune_cases", part_prune), ("api_runs", part_api),
+                     ("width_sweep_runs", part_widths), ("chains", part_chain), ("merge_interleavings", part_merge),
+                     ("agg_runs", part_agg)):
+        t0 = time.time()
+        scopes[name] = fn(ctx)
+        times[name] = round(time.time() - t0, 1)
+    ctx.extra["part_seconds"] = times
     ctx.exhaustive = True
     ctx.extra["scopes"] = scopes
 
